@@ -3,7 +3,7 @@
 T-arrow table algebra (terms built while interpreting the real code, compared structurally with the specification term):
    rows(x)                      the rows parsed from parquet source x (bytes or an opened file)
    filt(E, t)   proj(C, t)      Table.filter / Table.select   (E is None -> t ; C is None -> t)
-   pq.read_table(x, columns=C, filters=E) = proj(C, filt(E, rows(x)))           (predicate pushdown = filter then project)
+   pq.read_table(x, columns=C, filters=E) = proj(C, pushdown(E, rows(x)))       (NOT the same as Table.filter: evaluated against statistics too)
    batch(x, RC)                 one record batch of x read with columns RC;   concat(list)   pa.concat_tables
    pylist(t)                    Table.to_pylist
 A parser applied to bytes that are not a parquet file raises (T-arrow); every storage action may raise (fault edges).
@@ -32,7 +32,7 @@ META = {
                    "the current snapshot, with the single E = to_pyarrow_compute_expression(parse_filter_dict(filter)), and to raise "
                    "whenever any storage action, manifest reader or parquet parser on its path raises.",
     "trusted": [
-        "T-arrow table algebra: read_table(x, columns, filters) = project(columns, filter(filters, rows(x))); filter distributes over "
+        "T-arrow table algebra: read_table(x, columns) = project(columns, rows(x)); read_table(filters=E) is a different evaluator than Table.filter(E); filter distributes over "
         "record batches and concat_tables; parsers raise on bytes that are not a parquet file",
         "T-hash: SHA-256 treated as injective (a changed byte string has a different digest)",
         "T-store action contracts with fault-before edges; ThreadPoolExecutor.map = order-preserving map that propagates exceptions",
@@ -102,6 +102,11 @@ def arrow_theory(h: H, parse_faults=False):
         g["parsed"].append(x)
         cols = k.get("columns")
         flt = k.get("filters")
+        if flt is not None:
+            # T-arrow (corrected): read_table(filters=E) evaluates E during the scan, ALSO against row-group statistics, which is
+            # stricter about literal types than Table.filter(E) (`id IN ("3")` on a long column raises here, is answered there).
+            # It is therefore NOT the engine E the other paths use: a distinct term.
+            return atable(t_proj(cols, ("filter-pushed-down-into-the-parquet-scan", flt, t_rows(x))))
         return atable(t_proj(cols, t_filt(flt, t_rows(x))))
 
     def parquet_file(I, a, k):
@@ -751,6 +756,18 @@ try:
                 bad.append(("raised", flt, cols, repr(e)[:100])); continue
             for api, g in got.items():
                 if g != want: bad.append((api, flt, cols, "got", len(g), "want", len(want)))
+    # literals of another type than the column: whatever the engine does with them (answer or raise), every API does the same
+    for flt in ({"n": ("in", ["2"])}, {"n": ("not_in", ["50"])}, {"s": ("in", [5])}, {"n": "abc"}):
+        outcome = {}
+        for api, fn in (("scan", lambda: rows_key(t.scan(filter=flt))),
+                        ("scan-noverify", lambda: rows_key(t.scan(filter=flt, verify_checksums=False))),
+                        ("batches", lambda: rows_key([r for b in t.scan_batches(batch_size=2, filter=flt) for r in b])),
+                        ("batches-noverify", lambda: rows_key([r for b in t.scan_batches(batch_size=2, filter=flt, verify_checksums=False) for r in b])),
+                        ("records", lambda: rows_key(list(t.iter_records(filter=flt))))):
+            try: outcome[api] = ("rows", fn())
+            except Exception as e: outcome[api] = ("raises",)
+        if len({repr(v) for v in outcome.values()}) != 1:
+            bad.append(("scan APIs disagree on a filter whose literal has another type than the column", flt, {k: v[0] for k, v in outcome.items()}))
 finally:
     shutil.rmtree(root, ignore_errors=True)
 print("replay read APIs vs independent evaluator ->", bad[:5] or "all APIs agree with SQL semantics")
